@@ -69,14 +69,19 @@ func zzInvSketch(s *DDSketch) bool {
 func zzProbe() int { return zzvMInt("probe", -(1 << 35), 1<<35) }
 
 // statistics in an arbitrary consistent state for a sketch of total weight w
-func zzStats(tag string, count float64) *stat.SummaryStatistics {
+func zzStats(tag string, count float64, exactIEEEMinMax bool) *stat.SummaryStatistics {
 	// built through the exported constructor so that only reachable field combinations arise
 	if count == 0 {
 		return stat.NewSummaryStatistics()
 	}
 	sum := store.ZZW(tag + ".sum")
-	mn := zzvDyadic(tag+".min", 4, -(1 << 20), 1<<20)
-	mx := zzvDyadic(tag+".max", 4, -(1 << 20), 1<<20)
+	var mn, mx float64
+	if exactIEEEMinMax {
+		mn, mx = zzvFloat64(tag+".min"), zzvFloat64(tag+".max")
+	} else {
+		mn = zzvDyadic(tag+".min", 4, -(1 << 20), 1<<20)
+		mx = zzvDyadic(tag+".max", 4, -(1 << 20), 1<<20)
+	}
 	zzvAssume(mn <= mx)
 	st, err := stat.NewSummaryStatisticsFromData(count, sum, mn, mx)
 	zzvAssume(err == nil)
